@@ -57,7 +57,25 @@ def rules_delivery(run, P='C10', rid='.3'):
         m = run.fn(name)
         cs = [c for c in q.calls(m.node) if q.unparse(c.func) == 'self._listeners.' + meth]
         p = q.param_names(m.node)[1]
-        run.check(len(cs) == 1 and obj_is(cs[0].args[0], p) and not guards(cs[0]) and len([c for c in q.calls(m.node) if 'self._listeners' in q.unparse(c.func)]) == 1, r, name,
+        reached = len(cs) == 1 and not guards(cs[0])
+        if len(cs) == 1 and not reached and meth == 'remove':
+            # the removal may be skipped when (and only when) there is nothing to remove: every valuation of the path conditions under which the call is not
+            # reached has `listener not in self._listeners` true (e.g. an early return under `missing_ok and listener not in self._listeners`)
+            def classify_l(op, l, r_, e):
+                return 'PRESENT' if op == 'in' and l == p and r_ == 'self._listeners' else None
+            st_ = q.enclosing_stmt(cs[0])
+            dnf = q.reach_dnf(st_)
+            ba = q.BoolAbs(classify_l)
+            for conj in dnf:
+                for e_, pol in conj:
+                    ba.ev(e_, {})
+            vs = list(ba.vars)
+            reached = 'PRESENT' in vs
+            for mask in range(1 << len(vs)):
+                val = {v: bool(mask >> i_ & 1) for i_, v in enumerate(vs)}
+                if val.get('PRESENT') and not q.dnf_holds(ba, dnf, val):
+                    reached = False
+        run.check(len(cs) == 1 and obj_is(cs[0].args[0], p) and reached and len([c for c in q.calls(m.node) if 'self._listeners' in q.unparse(c.func)]) == 1, r, name,
                   '%s does _listeners.%s(listener)' % (name.split('.')[1], meth), 'registration differs', m.node)
     nw = 0
     for fi in prog.functions():
@@ -70,6 +88,28 @@ def rules_delivery(run, P='C10', rid='.3'):
                           'listener list modified outside attach/detach', node)
     run.floor(nw, 3, r, 'writers of _listeners')
 
+
+
+def rules_send_order(run):
+    """Listeners see what happened in the order it happened: the events and notifications collected while a piece of code ran are raised by one loop over the
+    collected list, each unconditionally - not sorted into kinds and raised kind by kind."""
+    r = run.rule('C10.8', 'sent events and user notifications of a micro step reach the listeners in the order the code produced them: one loop over the collected list '
+                          'raises each of them unconditionally')
+    A = ApplyStep(run, r)
+    sites = [s for s in A.sites if s.label == 'raise_event']
+    run.floor(len(sites), 1, r, '_raise_event sites in _apply_step')
+    in_send = [s for s in sites if A.region(s) == 'send']
+    run.check(len(in_send) >= 1, r, A.fi.short, 'the collected events are raised in the send loop', 'no raise in the send loop', A.F)
+    for s in sites:
+        if A.region(s) in ('send',):
+            run.check(not guards(s.node, stop=A.send_loop), r, A.fi.short, 'each collected event is raised where it stands in the list', 'raised under a condition: events of '
+                      'another kind are raised elsewhere, out of order', s.node)
+        elif strip_cast(s.node.args[0] if isinstance(s.node, ast.Call) and s.node.args else ast.Constant(value=None)).__class__ is ast.Name and \
+                q.enclosing(s.node, ast.For) is not None and q.enclosing(s.node, ast.For) is not A.send_loop and \
+                any(isinstance(x, ast.Name) and x.id in {n.id for n in ast.walk(A.send_loop.iter) if isinstance(n, ast.Name)}
+                    for o_ in [q.enclosing(s.node, ast.For).iter] + q.local_origin(A.F, q.enclosing(s.node, ast.For).iter) for x in ast.walk(o_)):
+            run.fail(r, A.fi.short, 'a second loop raises part of the collected events', 'events of the collected list are raised by another loop: the listeners do not see '
+                     'them in the order they were produced', s.node)
 
 
 def check(run):
@@ -178,6 +218,7 @@ def check(run):
     from . import c05
     run.guard(c05.rules_send, run, 'C10', '.7')
     run.guard(rules_delivery, run, 'C10', '.3')
+    run.guard(rules_send_order, run)
 
     r = run.rule('C10.4', 'fail-fast: the property listener queues the meta-event, executes the property interpreter and raises PropertyStatechartError when it '
                           'is final, on every path; no handler can intercept it')
@@ -257,6 +298,11 @@ def check(run):
         for n in q.walk(m.node):
             if isinstance(n, ast.Attribute) and n.attr == '_interpreter' and isinstance(n.ctx, ast.Load):
                 par = n._parent
+                if isinstance(par, ast.Return) and m.name not in ('time', '__init__') and not any(
+                        isinstance(x_, ast.Attribute) and x_.attr == m.name and isinstance(x_.value, ast.Attribute) and x_.value.attr in ('clock', '_clock')
+                        for f_ in prog.functions() if f_.module.name.startswith('sismic.') for x_ in q.walk(f_.node)):
+                    run.ok(r, m.short, 'read-only accessor handing out the followed interpreter; nothing in sismic reads it through a clock', n)
+                    continue
                 run.check(isinstance(par, ast.Attribute) and par.attr == 'time' and isinstance(par.ctx, ast.Load), r, m.short,
                           'clock reads only .time of the followed interpreter', 'other use: %s' % q.unparse(par)[:40], n)
     for m in prog.cls('PropertyStatechartListener').methods.values():
